@@ -61,7 +61,10 @@ def check_rv(chk, words, exp_pos, exp_vel, tagname):
                 sbuf = np.full((n, 7), np.nan, dtype=dt)
                 posout = {'alloc': None, 'supplied': np.full((n, 3), np.nan, dtype=dt), 'strided': sbuf[:, 0:3], 'skip': False}[pm]
                 velout = {'alloc': None, 'supplied': np.full((n, 3), np.nan, dtype=dt), 'strided': sbuf[:, 4:7], 'skip': False}[vm]
-                r = unpack_rvint(relayout(words, nrun), box, float_dtype=dt, posout=posout, velout=velout)      # the input's memory layout rotates too
+                inp = relayout(words, nrun)                                   # the input's memory layout rotates too,
+                if (nrun // 3) % 2:
+                    inp = np.ascontiguousarray(inp).reshape(-1)               # and its shape: (N,3) or the flat stream of 3N words
+                r = unpack_rvint(inp, box, float_dtype=dt, posout=posout, velout=velout)
                 nrun += 1
                 p = r[0] if pm == 'alloc' else (posout if pm in ('supplied', 'strided') else None)
                 v = r[1] if vm == 'alloc' else (velout if vm in ('supplied', 'strided') else None)
@@ -69,7 +72,8 @@ def check_rv(chk, words, exp_pos, exp_vel, tagname):
                     chk.violation(f'rvint-{tagname}-count', f'unpack_rvint returned count {r} for {n} supplied rows', dict(box=box))
                 if p is not None:
                     if p.dtype != dt or p.shape != (n, 3):
-                        chk.violation(f'rvint-{tagname}-shape', f'pos dtype/shape {p.dtype}{p.shape}', dict(box=box))
+                        chk.violation(f'rvint-{tagname}-shape', f'pos dtype/shape {p.dtype}{p.shape} for {n} particles (input shape {inp.shape}, mode=({pm},{vm}))', dict(box=box))
+                        continue
                     bad = ~(np.abs(p.astype(np.float64) - want_p64) <= tol)
                     if bad.any():
                         i = np.argwhere(bad)[0]
@@ -78,6 +82,9 @@ def check_rv(chk, words, exp_pos, exp_vel, tagname):
                                       f'{int(exp_pos[tuple(i)])} x BoxSize/1e6 = {want_p64[tuple(i)]!r}', dict(word=int(words[tuple(i)]), box=box, dtype=np.dtype(dt).name))
                     results.setdefault('p', []).append(p.copy())
                 if v is not None:
+                    if v.dtype != dt or v.shape != (n, 3):
+                        chk.violation(f'rvint-{tagname}-shape', f'vel dtype/shape {v.dtype}{v.shape} for {n} particles (input shape {inp.shape}, mode=({pm},{vm}))', dict(box=box))
+                        continue
                     if not np.array_equal(v, want_v):
                         i = np.argwhere(v != want_v)[0]
                         chk.violation(f'rvint-{tagname}-vel', f'word {int(words[tuple(i)])} {np.dtype(dt).name} mode=({pm},{vm}): vel {float(v[tuple(i)])!r} != '
